@@ -33,7 +33,16 @@ func residueProbes(r *h.Rand) []*prog {
 		mk(`P4[{{block pb(a=1)}}{{a}}<{{yield content}}>{{end}}|{{yield pb(a=2)}}]`, vNil()),
 		mk(`P5[{{try}}{{yield content}}{{x}}{{catch}}c{{end}}{{yield content}}]`, vInt(3)),
 		mk(`P6[{{range i := li}}{{yield content}}{{i}}{{end}}{{isset(i)}}]`, vNil()),
+		mk(`P7[{{try}}ok{{end}}|{{try}}a{{try}}b{{end}}c{{catch}}X{{end}}]`, vNil()),
+		mk(`P8[{{range li}}{{range x := ls}}{{x}}{{end}};{{end}}|{{range k, v := m}}{{end}}{{range li}}{{.}}{{range li}}{{.}}{{end}},{{end}}]`, vNil()),
+		mk(`P9[{{range el}}x{{else}}e{{end}}{{range nl}}x{{else}}e{{end}}{{range nm}}x{{else}}e{{end}}|{{range li}}{{range el}}x{{else}}{{.}}{{end}}{{end}}]`, vNil()),
+		mk(`P10[{{ x := 1 }}{{include "/inc.jet"}}{{ exec("/inc.jet") }}{{.}}{{isset(x)}}]`, vStr("ctx")),
 	}
+	for _, p := range ps {
+		p.files["/inc.jet"] = `I{{.}}{{isset(x)}}`
+	}
+	ps = append(ps[:0:0], ps...)
+	_ = ps
 	return ps
 }
 
@@ -56,6 +65,11 @@ func residueFailers(r *h.Rand) []*prog {
 		mk(`{{try}}{{block fb(a)}}{{yield content}}{{end}}{{yield fb(a=2) content}}{{try}}{{fail("inner")}}{{end}}` + secret + `{{fail("in try")}}{{end}}{{catch err}}{{fail("in catch")}}{{end}}`),
 		mk(`{{block fb(a)}}{{yield content}}{{end}}{{yield fb(a=2) content}}{{yield fb(a=3) content}}` + secret + `{{nosuch.field}}{{end}}{{end}}`),
 		mk(`{{block fb(a) s}}{{.}}{{yield content}}{{end}}{{yield fb(a=2) "ctx` + secret + `" content}}{{.}}{{1/z}}{{end}}`),
+		mk(`{{try}}` + secret + `{{ missing }}{{catch}}{{ missing2 }}{{end}}`),
+		mk(`{{try}}` + secret + `{{try}}x{{ missing }}{{catch}}y{{ missing2 }}{{end}}{{end}}{{ missing3 }}`),
+		mk(`{{range el}}x{{else}}e{{end}}{{range nl}}{{else}}{{range el}}{{else}}{{fail("in else")}}{{end}}{{end}}`),
+		mk(`{{range li}}{{range ls}}{{range k, v := m}}{{fail("deep")}}{{end}}{{end}}{{end}}`),
+		mk(`{{ x := "` + secret + `" }}{{ exec("/inc.jet", x) }}{{include "/inc.jet" x}}`),
 	}
 }
 
